@@ -42,7 +42,45 @@ def run_one(m):
     return res
 
 
+def run_benign(m):
+    """a behaviour-preserving edit: every registered check must stay silent"""
+    wt = "/tmp/st-wt-%s-%d" % (m["name"], os.getpid())
+    sh("git -C /repo worktree remove --force " + wt); shutil.rmtree(wt, ignore_errors=True)
+    sh("git -C /repo worktree add --detach %s HEAD" % wt)
+    if os.path.exists("/repo/Cargo.lock") and not os.path.exists(os.path.join(wt, "Cargo.lock")):
+        shutil.copy("/repo/Cargo.lock", os.path.join(wt, "Cargo.lock"))
+    res = {"name": m["name"], "alarms": {}}
+    try:
+        rc, out = sh("git apply --whitespace=nowarn %s" % os.path.join(VERIF, m["patch"]), cwd=wt)
+        if rc != 0:
+            res["alarms"]["apply"] = [out[-200:]]
+            return res
+        man = json.load(open(os.path.join(VERIF, "MANIFEST.json")))
+        for c in man["checks"]:
+            pid = c["property_id"]
+            rc, out = sh("./check %s --tier quick" % pid, cwd=VERIF, env={"VERIF_REPO": wt, "VERIF_NO_EVIDENCE": "1"})
+            v = re.findall(r"^\S+: \[([\w-]+)\] (.*) in `(.*)` \(", out, re.M)
+            if rc != 0 or v:
+                res["alarms"][pid] = ["%s:%s:%s" % (a, c_, b) for a, b, c_ in v][:5]
+    finally:
+        sh("git -C /repo worktree remove --force " + wt); shutil.rmtree(wt, ignore_errors=True)
+    return res
+
+
 def main():
+    if "--benign" in sys.argv:
+        cat = json.load(open(os.path.join(VERIF, "selftest", "benign.json")))
+        with ThreadPoolExecutor(max_workers=6) as ex:
+            results = list(ex.map(run_benign, cat))
+        bad = 0
+        for r in results:
+            if r["alarms"]:
+                bad += 1
+                print("ALARM %-30s %s" % (r["name"], r["alarms"]))
+            else:
+                print("quiet %-30s" % r["name"])
+        print("%d/%d behaviour-preserving edits leave every check silent" % (len(results) - bad, len(results)))
+        return 1 if bad else 0
     cat = json.load(open(os.path.join(VERIF, "selftest", "catalogue.json")))
     only = [a for a in sys.argv[1:] if not a.startswith("-")]
     if only:
